@@ -54,6 +54,7 @@ type c12case struct {
 	host     string
 	weird    string // "" or the name of the out-of-domain twist that was applied
 	echoTail   int  // the device keeps back the last echoTail bytes of every echo for c12hold (0 = no)
+	shownSecret bool // a hidden input's text also occurs in the device's output
 	winAdv     bool // one event's answer is longer than the search depth and has lines that END in the text the read waits for
 	statusLine bool // some event carries a prompt-like status line (in domain)
 	clean    bool   // built without any twist, from a clean queue, with questions no proper prefix of which matches their pattern, and with hidden inputs the device does not echo
@@ -200,6 +201,13 @@ func genC12(seed uint64, thorough bool) c12case {
 				e.hidden = true
 				e.devHidden = !r.Chance(1, 6)
 				e.input = c12secret(r)
+				if r.Chance(1, 3) {
+					// a secret whose text also occurs in what the device displays (part of the host
+					// name, a word of the output, a single letter): the result is still the whole dialogue
+					h := cs.host
+					e.input = r.Pick([]string{h, h[:len(h)/2+1], h[len(h)/2:], "y", "ok", "up", "is", "line", "lab", "#"})
+					cs.shownSecret = true
+				}
 			default:
 				e.input = r.Pick([]string{"y", "yes", "n", "", "startup-config", "flash:/cfg.txt", "show clock", "all", "yess", "show access"})
 				if prevQ == -1 && e.input == "" {
@@ -1639,6 +1647,9 @@ func c12check(c *ctx, cases []c12case) {
 		}
 		if cs.kind == "inter" || cs.kind == "netinter" {
 			res.Count(fmt.Sprintf("complete-patterns slice spare-capacity:%v", cs.seed%3 != 0))
+		}
+		if cs.shownSecret {
+			res.Count(fmt.Sprintf("hidden input text occurs in the output dom:%v clean:%v", allDom, cs.clean))
 		}
 		if cs.winAdv {
 			db := "small"
